@@ -95,11 +95,12 @@ func c06build(dangling uint, variant int) *Cfg {
 		Param{"pAfterFn", `%env("C06_HOST", "localhost")%:%` + name(12) + "%"},
 	)
 	c.Services = append(c.Services,
-		Service{Name: "svcCtor", Constructor: P("NewThing"), Args: []any{1, "%" + name(3) + "%"}},
+		// `todo: false` is a spelling of "not todo": the referrer is checked like any other
+		Service{Name: "svcCtor", Constructor: P("NewThing"), Args: []any{1, "%" + name(3) + "%"}, Todo: P(false)},
 		// explicit scopes on services that sort after default-scope ones (carrier, svcAfterFn)
 		Service{Name: "svcCall", Constructor: P("NewThing"), Calls: []Call{{Method: "Set", Args: []any{"%" + name(4) + "%"}}}, Scope: P("shared")},
 		Service{Name: "svcField", Value: P("Thing{}"), Fields: []KV{{"Fa", "%" + name(5) + "%"}}, Scope: P("contextual")},
-		Service{Name: "svcCtorS", Constructor: P("NewThing"), Args: []any{"@" + name(7)}},
+		Service{Name: "svcCtorS", Constructor: P("NewThing"), Args: []any{"@" + name(7)}, Todo: P(false)},
 		Service{Name: "svcCallS", Constructor: P("NewThing"), Calls: []Call{{Method: "Set", Args: []any{true, "@" + name(8)}}}},
 		Service{Name: "svcFieldS", Value: P("Thing{}"), Fields: []KV{{"Fb", "@" + name(9)}}},
 		Service{Name: "svcWither", Scope: P("non_shared"), Constructor: P("NewThing"), Calls: []Call{{Method: "With", Args: []any{"x%%%" + name(11) + "%:%tOne%"}, Immutable: P(true)}}},
@@ -193,6 +194,11 @@ func init() {
 					cfg.Decorators = append(cfg.Decorators, Decorator{Tag: "tg", Decorator: "pk.Dec1", Args: []any{"%" + z.K + "%"}})
 					ops = append(ops, op("param", z.K), op("param", z.K+"Alias"), op("param", z.K+"Multi"), op("get", "s"+z.K))
 				}
+				// todo targets are declared as well: what comes back is the documented todo error, not "does not exist"
+				cfg.Params = append(cfg.Params, Param{"zTodo", "%todo()%"}, Param{"zTodoUser", "<%zTodo%>"})
+				cfg.Services = append(cfg.Services, Service{Name: "tTodo", Todo: P(true)}, Service{Name: "tTodoUser", Constructor: P("pk.New"), Args: []any{"@tTodo", "%zTodo%"}},
+					Service{Name: "tTodoLate", Todo: P(true), Constructor: P("pk.New")})
+				ops = append(ops, op("param", "zTodo"), op("param", "zTodoUser"), op("get", "tTodo"), op("get", "tTodoUser"), op("get", "tTodoLate"), opTag("tagged", "tg"))
 				c.Distinct("all", c.ID)
 				c.Distinct("nontrivial", c.ID)
 				outs, err := w.RunBehaviour([]*BCase{{ID: c.ID, Cfg: cfg, Sessions: []BSession{{Ops: ops}}}})
